@@ -3,6 +3,7 @@ import OV.Lemmas.C20Save
 import OV.Lemmas.C20Round
 import OV.Lemmas.C20Fault
 import OV.Lemmas.C20Sim
+import OV.Lemmas.C20SimF
 /-!
 # C20 — saving with external data round-trips and never disturbs the in-memory model
 
@@ -128,6 +129,32 @@ theorem model_unchanged (cfg : Cfg) (hr : cfg.refuse = true) (m : Model) (dir na
       subst h2
       cases m with
       | mk sig cv heap tnames => simp [init]
+
+/-- **The refusal does not depend on the size threshold** (`cfg.thr` = `size_threshold_bytes`, any value): whenever some
+initializer's tensor is an `ExternalTensor` stored in `dir/name.data` — however small, i.e. also when `ir.save` would only
+"load it to memory" — the call raises `ValueError`, for every fault plan, and the whole state (0 file-system calls, files,
+tensor objects, pointers, names) is the initial one.  `model_unchanged`, `roundtrip` and `roundtrip_on_success` are likewise
+stated for every `cfg`, hence for every threshold.  (Exempting tensors up to the threshold, seeded change C20-7, is unsound:
+`backing_dest_refuted`.) -/
+theorem refusal_ignores_threshold (cfg : Cfg) (hr : cfg.refuse = true) (m : Model) (dir name : String) (verbose : Bool)
+    (fs : FS) (k : Option Nat) (h : destHits (joinPath dir (name ++ ".data")) m.heap m.cv ≠ []) :
+    (runSave cfg m dir name verbose fs k).res = .error .valueError ∧
+    (runSave cfg m dir name verbose fs k).st = init m fs k := by
+  have hd' : (destHits (joinPath dir (name ++ ".data")) (init m fs k).heap (init m fs k).cv).isEmpty = false := by
+    cases hl : destHits (joinPath dir (name ++ ".data")) m.heap m.cv with
+    | nil => exact absurd hl h
+    | cons a as => simp [init, hl]
+  obtain ⟨h1, h2⟩ := save_guard2 cfg m.sig m.tnames dir name (verbose && cfg.tqdm) (init m fs k) hr hd'
+  unfold runSave
+  cases hs : save cfg m.sig m.tnames dir name (verbose && cfg.tqdm) (init m fs k) with
+  | mk r s' => rw [hs] at h1 h2; exact ⟨h1, h2⟩
+
+/-- A 2-byte external tensor in the destination file, threshold 1000 (it would merely be "loaded to memory"): refused. -/
+example :
+    let m : Model := { sig := [("e", false)], cv := [some 0], heap := [.ext "m.data" 0 2 true] }
+    destHits (joinPath "" ("m" ++ ".data")) m.heap m.cv ≠ [] ∧
+    (runSave { thr := 1000 } m "" "m" false [("m.data", .data [5, 6])] none).res = .error .valueError := by
+  decide +kernel
 
 /-- With the second guard the C20-D1 witness is refused and nothing is touched. -/
 example :
@@ -449,26 +476,30 @@ example :
     (runSave {} m2 "" "m" false fs none).res = .error .valueError ∧ (runSave {} m2 "" "m" false fs none).st.fs = fs := by
   decide +kernel
 
-/-- **The verbose/tqdm branch and the plain branch differ only in the progress callback**: for every fault plan, if the
-verbose save returns normally, so does the plain one, with the same files, tensor objects, `const_value`s, names, trace
-and call count — the end states are equal once the callback log is erased.  (The callback makes no file-system call.) -/
-theorem verbose_only_feeds_callback (cfg : Cfg) (m : Model) (dir name : String) (fs : FS) (k : Option Nat)
-    (hok : (runSave cfg m dir name true fs k).res = .ok ()) :
-    (runSave cfg m dir name false fs k).res = .ok () ∧
+/-- **The verbose/tqdm branch and the plain branch differ only in the progress callback — two-sided.**  For every model,
+file system, path, guard configuration and **every fault plan `k`**, whether the calls succeed or fail: the plain call
+ends with the *same outcome* as the verbose one (normal return, or the same exception) and in the same state — files,
+tensor objects, `const_value`s, names, trace, call count — once the callback log of the verbose run is erased.  (The
+callback makes no file-system call and cannot change what the save does or reports.) -/
+theorem verbose_only_feeds_callback (cfg : Cfg) (m : Model) (dir name : String) (fs : FS) (k : Option Nat) :
+    (runSave cfg m dir name false fs k).res = (runSave cfg m dir name true fs k).res ∧
     (runSave cfg m dir name false fs k).st = { (runSave cfg m dir name true fs k).st with cb := [], cbTotal := none } := by
-  have hsim := sim_save (ek := false) (ecb := true) cfg m.sig m.tnames dir name (true && cfg.tqdm) (false && cfg.tqdm)
-    (Or.inr ⟨rfl, Bool.false_and _⟩) (init m fs k)
-  unfold runSave at hok ⊢
+  have h := simF_save cfg m.sig m.tnames dir name (true && cfg.tqdm) (init m fs k)
+  have hinit : erc (init m fs k) = init m fs k := rfl
+  rw [hinit] at h
+  unfold runSave
+  simp only [Bool.false_and]
+  rw [h]
   cases hs : save cfg m.sig m.tnames dir name (true && cfg.tqdm) (init m fs k) with
-  | mk r s' =>
-    rw [hs] at hok
-    simp only [] at hok
-    subst hok
-    have h := hsim () s' hs
-    have hinit : er false true (init m fs k) = init m fs k := rfl
-    rw [hinit] at h
-    rw [h]
-    exact ⟨rfl, rfl⟩
+  | mk r s' => exact ⟨rfl, rfl⟩
+
+/-- A failing pair: with a fault planned at call 2 both calls raise `OSError` after the same number of calls. -/
+example :
+    let m : Model := { sig := [("b", false)], cv := [some 0], heap := [.mem (List.replicate 300 9) true], tnames := ["b"] }
+    (runSave {} m "" "m" true [] (some 2)).res = .error .osError ∧ (runSave {} m "" "m" false [] (some 2)).res = .error .osError ∧
+    (runSave {} m "" "m" true [] (some 2)).st.calls = (runSave {} m "" "m" false [] (some 2)).st.calls ∧
+    (runSave {} m "" "m" true [] (some 2)).st.cb ≠ [] ∧ (runSave {} m "" "m" false [] (some 2)).st.cb = [] := by
+  decide +kernel
 
 /-- Without `tqdm` installed the verbose call *is* the plain call (`use_tqdm = verbose and find_spec("tqdm") is not None`). -/
 theorem tqdm_absent_is_plain (cfg : Cfg) (h : cfg.tqdm = false) (m : Model) (dir name : String) (fs : FS) (k : Option Nat) :
